@@ -72,9 +72,18 @@ def parse_reports(text):
 
 def classify(rep):
     kind = re.sub(r"\s*\(.*", "", rep["kind"]).strip().replace(" ", "-")
-    # the access stacks: for a data race the first two stacks; "created by" / "Location" / mutex stacks are context
-    acc = [s for s, t in zip(rep["stacks"], rep["titles"]) if not re.match(r"(Thread T\d+|Location is|Mutex M\d+)", t)]
-    acc = acc[:2] if acc else rep["stacks"][:2]
+    # access stacks: for a data race the two conflicting accesses; for every other kind (use-after-free, thread leak, lock-order
+    # inversion, ...) only the first stack identifies the defect (the "freed by"/"created by" stacks vary from run to run).
+    # "Thread Tn created by", "Location is", "Mutex Mn" stacks are context.
+    pairs = list(zip(rep["stacks"], rep["titles"]))
+    acc = [s for s, t in pairs if not re.match(r"(Thread T\d+|Location is|Mutex M\d+|As if synchronized)", t)]
+    acc = (acc[:2] if kind == "data-race" else acc[:1]) if acc else rep["stacks"][:1]
+    loc = [s for s, t in pairs if t.startswith("Location is")]
+    # the memory was allocated by library code (e.g. the y buffer handed to the model): innermost user frame of the allocation stack is in the repo
+    library_owned = False
+    for s in loc:
+        u = next((p for (_, p, _) in s if is_user(p)), None)
+        if u is not None and in_repo(u): library_owned = True
     any_repo = any(in_repo(p) for s in rep["stacks"] for (_, p, _) in s)
     tops = []        # innermost user frame of every access stack
     repo_tops = []   # first in-repo frame of every access stack
@@ -82,7 +91,7 @@ def classify(rep):
         u = next(((f, p) for (f, p, _) in s if is_user(p)), None)
         r = next(((f, p) for (f, p, _) in s if in_repo(p)), None)
         tops.append(u); repo_tops.append(r)
-    harness_only = bool(tops) and all(t is not None and in_harness(t[1]) for t in tops)
+    harness_only = bool(tops) and all(t is not None and in_harness(t[1]) for t in tops) and not library_owned
     if not any_repo and not any(t for t in tops):
         return "other", "tsan-other:" + kind
     if harness_only and kind == "data-race":
@@ -91,8 +100,13 @@ def classify(rep):
     names = []
     for r in repo_tops:
         names.append((simplify(r[0]) + "@" + os.path.basename(r[1])) if r else "-")
-    while len(names) < 2: names.append("-")
-    names = sorted(names[:2])
+    if kind == "data-race":
+        while len(names) < 2: names.append("-")
+        names = sorted(names[:2])
+    if names == ["-"] or not names:
+        # no in-repo frame in the access stack itself: fall back to the first in-repo frame anywhere in the report
+        r = next(((f, p) for s in rep["stacks"] for (f, p, _) in s if in_repo(p)), None)
+        names = [(simplify(r[0]) + "@" + os.path.basename(r[1])) if r else "-"]
     return "library", "tsan:" + kind + ":" + "|".join(names)
 
 def collect_tsan(logdir, seed, descriptors):
@@ -124,6 +138,18 @@ def drop_deadlock_exit(res):
     """the in-process watchdog reports the deadlock (V line) and leaves with _exit(97): drop the companion crash:exit:97 entry"""
     dl = set(v["index"] for v in res.violations if v["key"].startswith("deadlock:"))
     res.violations = [v for v in res.violations if not (v["key"].startswith("crash:exit:%d" % EXIT_DEADLOCK) and v["index"] in dl)]
+    return dl
+
+CRASH_FRAME = re.compile(r"#\d+ 0x[0-9a-f]+ in (.+?) (/\S+?):(\d+)")
+def fix_crash_keys(res):
+    """check.py keys a crash by the first frame under /repo/; this repo may live in a worktree: redo the frame search with in_repo()"""
+    for v in res.violations:
+        if not (v["key"].startswith("crash:") and v["key"].endswith(":?")): continue
+        try: text = json.loads(v["detail"]).get("stderr", "")
+        except Exception: continue
+        for m in CRASH_FRAME.finditer(text):
+            if in_repo(m.group(2)):
+                v["key"] = v["key"][:-1] + simplify(m.group(1)) + "@" + os.path.basename(m.group(2)); break
 
 def check(prop, cfg, tier, seed, ncases_override=None):
     ck = _check()
@@ -136,17 +162,21 @@ def check(prop, cfg, tier, seed, ncases_override=None):
     env = dict(cfg.get("env") or {}); env["VF_TSAN_LOGDIR"] = logdir
     # 1. tsan variant: behavioural oracles + race detector
     res = ck.run_cases(prop, "tsan", n, tier, seed, timeout=cfg.get("timeout", 60), chunk=cfg.get("chunk", 10), extra_args=cfg.get("args", ()), extra_env=env)
-    drop_deadlock_exit(res)
+    deadlocked = drop_deadlock_exit(res)
+    fix_crash_keys(res)
     tsan_sigs = set(res.sigs)
     descriptors = {}
     for v in res.violations: descriptors.setdefault(v["index"], v.get("descriptor"))
     tv, bugs, nrep = collect_tsan(logdir, seed, descriptors)
+    # a case that the deadlock watchdog left with _exit() has live threads by construction: the "thread leak" report is the same finding
+    tv = [v for v in tv if not (v["key"].startswith("tsan:thread-leak") and v["index"] in deadlocked)]
     res.violations.extend(tv)
     res.add_counter("tsan_reports_parsed", nrep)
     res.add_counter("tsan_cases", res.evaluations)
     # 2. asan variant: same cases (same seed and indices => same inputs, other schedules)
     res_a = ck.run_cases(prop, "asan", n_asan, tier, seed, timeout=cfg.get("timeout", 60), chunk=cfg.get("chunk", 10), extra_args=cfg.get("args", ()), extra_env=cfg.get("env"))
     drop_deadlock_exit(res_a)
+    fix_crash_keys(res_a)
     res.add_counter("asan_cases", res_a.evaluations)
     merge(res, res_a)
     res.sigs = tsan_sigs | set(res_a.sigs)
